@@ -36,6 +36,7 @@ type vpTransport struct {
 	drainFails  bool
 	corrupted   int
 	beforeEOF   func()
+	onDrain     func() // runs while the gateway waits for the connection's first bytes (Drain)
 	clientGone  bool // DATA writes to this connection block until it is closed (a client that stopped reading)
 	isWS        bool // handed out by the NewWS stub: one ReadPacket = one websocket message
 }
